@@ -222,7 +222,9 @@ func c09LessTable(c *Ctx, p *Prog, lessFn *ssa.Function, idxF *types.Var, R stri
 		var eqAtom *Sym
 		var eqVal bool
 		var cmpNZ, cmpNeg *bool
-		for k, v := range o.Assign {
+		for _, k := range o.AtomKeys() {
+			v := o.Assign[k]
+			_ = v
 			s := o.AtomSyms[k]
 			vv := v
 			mA, polA := inSide(s, pa)
@@ -436,7 +438,9 @@ func c09Producer(c *Ctx, p *Prog, orderF, idxF *types.Var, flatMethod *types.Fun
 			for _, o := range outs {
 				var tracked, inRow, present *bool
 				var lookupKey *Sym
-				for kk, v := range o.Assign {
+				for _, kk := range o.AtomKeys() {
+					v := o.Assign[kk]
+					_ = v
 					s := o.AtomSyms[kk]
 					vv := v
 					switch {
@@ -603,7 +607,9 @@ func c09Comparators(c *Ctx, p *Prog) {
 	n := 0
 	for _, o := range outs {
 		part := map[string]bool{}
-		for k, v := range o.Assign {
+		for _, k := range o.AtomKeys() {
+			v := o.Assign[k]
+			_ = v
 			kd := kind(o.AtomSyms[k])
 			if kd == "" {
 				// a path of the comparator that consults anything but the two parse results, their numeric order and their
